@@ -127,6 +127,13 @@ func (b *deprecatedStateBackend) RevertHead() error {
 			return err
 		}
 
+		// A persisted running event filter snapshot describes a chain that contains the
+		// block being reverted. Drop it in the same batch, so that no restart can load a
+		// snapshot that predates this revert (deleting an absent key is a no-op).
+		if err := core.DeleteRunningEventFilter(txn); err != nil {
+			return err
+		}
+
 		return b.runningFilter.OnReorgWithBatch(txn)
 	})
 }
